@@ -54,6 +54,36 @@ def run(ctx):
     r6_replay_buffer(ctx)
     r7_held_learners(ctx, fam)
     r8_parallel_lists(ctx)
+    r9_unbounded_memo_of_draws(ctx)
+
+
+DRAWS = {"choice", "choicew", "random", "randoms", "randint", "randints", "shuffle", "gauss", "gausses"}
+
+
+def r9_unbounded_memo_of_draws(ctx, rule="C04.R9"):
+    """A reward/feedback object that answers by drawing from its own generator is a function of its argument only because the answer is
+    memoised; with a bounded memo an evicted entry is re-drawn and a replayed (materialized / cached) interaction answers differently."""
+    ctx.rule(rule, "a memoised function whose body draws from a random generator is memoised without eviction (lru_cache(maxsize=None) / functools.cache): "
+                   "it is re-asked when a materialized or cached environment is read again")
+    n = 0
+    for (rel, qual), fn in sorted(ctx.model.functions.items()):
+        if rel.startswith("coba/tests"):
+            continue
+        memo = [d for d in fn.decorator_list if (dotted_name(d.func) if isinstance(d, ast.Call) else dotted_name(d) or "").split(".")[-1] in ("lru_cache", "cache")]
+        if not memo:
+            continue
+        draws = [c for c in ast.walk(fn) if isinstance(c, ast.Call) and call_tail(c) in DRAWS and isinstance(c.func, ast.Attribute) and
+                 ("rng" in unparse(c.func.value).lower() or "random" in unparse(c.func.value).lower())]
+        if not draws:
+            continue
+        n += 1
+        ctx.touch(rel, qual)
+        d = memo[0]
+        name = (dotted_name(d.func) if isinstance(d, ast.Call) else dotted_name(d)).split(".")[-1]
+        unbounded = name == "cache" or (isinstance(d, ast.Call) and ((d.args and isinstance(d.args[0], ast.Constant) and d.args[0].value is None) or
+                                                                     any(k.arg == "maxsize" and isinstance(k.value, ast.Constant) and k.value.value is None for k in d.keywords)))
+        ctx.ob(rule, rel, qual, d, "the memo of a drawing function never evicts", unbounded, detail={"decorator": unparse(d), "draws": [unparse(c)[:60] for c in draws][:3]})
+    ctx.floor(rule, "memoised functions that draw from a generator", n, 1)
 
 
 STRUCT_MUT = {"pop", "insert", "remove", "append", "sort", "reverse", "clear", "extend"}
@@ -1021,7 +1051,14 @@ def r7_held_learners(ctx, fam, rule="C04.R7"):
     ctx.floor(rule, "uses of held learners on read paths", n, 1)
 
 
+def _bounded_memo(tree):
+    from ..mutate import find_def
+    fn = find_def(tree, "Grounded.GroundedFeedback.__call__")
+    fn.decorator_list = [ast.parse("lru_cache(maxsize=256)", mode="eval").body]
+
+
 CONTROLS = [
+    ("feedback memo evicts", EF, _bounded_memo, "C04.R9"),
     ("failing source leaves a truncated buffer", PF, M.replace_stmt("Cache.filter", lambda st: isinstance(st, ast.While),
         "while current := list(islice(self._iter, n_slice)):\n    self._cache.extend(current)\n    yield from current"), "C04.R6"),
     ("save shrinks only one of the aligned lists", "coba/environments/core.py", M.delete_stmt("Environments.save", M.simple_has("self_params.pop(param_index_in_self)")), "C04.R8"),
